@@ -1,14 +1,13 @@
 CONSTANTS
   NP = 2
   NChunks <- Chunks21
-  MaxCtl = 3
-  Wait = TRUE
+  MaxCtl = 2
+  Wait = FALSE
   StopWakes = TRUE
   JoinAll = TRUE
-  Faults = FALSE
-  RunFinally = TRUE
-INIT Init
-NEXT CNext
+  Faults = TRUE
+  RunFinally = FALSE
+SPECIFICATION LiveSpec
 INVARIANT InOrderOnce
 INVARIANT Complete
 INVARIANT NoWriteWhenNotOpen
@@ -18,4 +17,5 @@ INVARIANT TerminatedOnce
 INVARIANT NoThreadAlive
 INVARIANT PlayRaisesAfterClose
 INVARIANT WaitsForAll
+PROPERTY CloseReturns
 CHECK_DEADLOCK FALSE
